@@ -305,7 +305,8 @@ class Builtins:
         if isinstance(v, VNone):
             return core.KNONE
         if isinstance(v, VFl):
-            return core.Key.KReal(v.fl.r)
+            # float keys (Bag): nan never reaches a dict in this code base (floatOrNan maps it to "nan")
+            return z3.If(v.fl.pinf, core.Key.KPInf, z3.If(v.fl.ninf, core.Key.KNInf, core.Key.KReal(v.fl.r)))
         raise Unsupported(f"key term of {v!r}")
 
     def pykey_term(self, pk):
